@@ -35,6 +35,18 @@ fn affine_shape(xs: &[usize], variant: usize) -> Vec<usize> {
     }
 }
 
+/// Scale values: never exactly 1 (a single-element `* 1` would be removed by IdentityFusion first).
+fn scale_const(g: &mut G, shape: &[usize]) -> Vid {
+    let seed = g.seed ^ 0x5CA1;
+    g.cf(shape, |i| [0.5f32, 0.75, 1.25, 1.5][(crate::hash32(seed, i) % 4) as usize])
+}
+
+/// Bias values: never exactly 0 (a single-element `+ 0` would be removed by IdentityFusion first).
+fn bias_const(g: &mut G, shape: &[usize]) -> Vid {
+    let seed = g.seed ^ 0xB1A5;
+    g.cf(shape, |i| [-0.5f32, -0.25, 0.25, 0.5][(crate::hash32(seed, i) % 4) as usize])
+}
+
 struct Axes {
     axes: Vec<i64>,
     as_input: bool,
@@ -137,7 +149,7 @@ pub fn layer_norm(g: &mut G) -> Vid {
         g.input(DType::F32, &[shape[r - 1]])
     } else {
         let ss = affine_shape(&shape, g.kc(3, 7));
-        g.cf_var(&ss, 0x5CA1, 0.5, 4)
+        scale_const(g, &ss)
     };
     let y = g.bin_comm("Mul", n, scale, 4);
     match g.kc(4, 7) {
@@ -145,7 +157,7 @@ pub fn layer_norm(g: &mut G) -> Vid {
         k => {
             g.inters.push(y);
             let bs = affine_shape(&shape, k);
-            let bias = g.cf_var(&bs, 0xB1A5, -0.5, 5);
+            let bias = bias_const(g, &bs);
             g.bin_comm("Add", y, bias, 5)
         }
     }
@@ -181,7 +193,7 @@ pub fn rms_norm(g: &mut G) -> Vid {
         g.input(DType::F32, &[shape[r - 1]])
     } else {
         let ss = affine_shape(&shape, g.kc(3, 7));
-        g.cf_var(&ss, 0x5CA1, 0.5, 4)
+        scale_const(g, &ss)
     };
     if g.kc(5, 2) == 1 {
         let n = g.bin("Div", x, rt);
